@@ -105,6 +105,13 @@ class History:
         r = s.x().call('C_CreateObject', s=sess, tmpl=s.T(tmpl)); s.part.count('calls_create')
         if r['rv'] != 0: s.part.count('refused_create'); s.part.observe('refused C_CreateObject (no verdict)', {'class': cls, 'rv': r['rvname']}); return
         o = Obj(tag, cls, token, private, 'C_CreateObject', owner=sess); s.M[tag] = o; s.adopt(o, r['h'], tmpl, 'C_CreateObject')
+    def create_with(s, cls, private, extra):
+        """a token object whose storage flags are exactly `extra` (deterministic part: each flag alone, both back-ends)"""
+        tag = s.newtag(); tmpl = [(a, v) for a, v in s.gen.template(cls, True, private, tag, rich=False) if a not in persist.STORAGE_BOOLS] + list(extra); s.trace.append(('create', cls, True, private, tag.decode(), [a for a, v in extra]))
+        r = s.x().call('C_CreateObject', s=s.S, tmpl=s.T(tmpl)); s.part.count('calls_create')
+        if r['rv'] != 0: s.part.inconc(f'storage-flag object refused: {cls} {extra} {r["rvname"]}'); return
+        o = Obj(tag, cls, True, private, 'C_CreateObject', owner=s.S); s.M[tag] = o; s.adopt(o, r['h'], tmpl, 'C_CreateObject')
+        for a, v in extra: s.part.distinct.add(('storage-flag', a, v, cls, s.backend))
     def op_generate(s):
         rnd = s.rnd; ck = s.ck; token = rnd.random() < .8; tag = s.newtag(); k = rnd.choice(('aes', 'aes', 'generic', 'des3', 'ec', 'ec', 'rsa', 'ed')); s.trace.append(('generate', k, token, tag.decode()))
         common = lambda t, priv: [('CKA_TOKEN', token), ('CKA_PRIVATE', priv), ('CKA_LABEL', t + b'|' + s.gen.fresh(8)), ('CKA_ID', s.gen.fresh(rnd.choice((0, 1, 20))))]
@@ -173,6 +180,8 @@ class History:
         if len(t) != 1: s.V(f'decoder|{s.backend}|token-not-decodable', 'the independent decoder does not find the token in the directory', found=len(t), problems=[p for x in toks for p in x.problems][:5]); return
         t = t[0]
         for p in t.problems: s.V(f'decoder|{s.backend}|{problem_class(p)}', 'the independent decoder objects to the stored format: ' + p, where=where)
+        for (oid, ty), n in sorted(t.dups.items()):
+            s.V(f'decoder|{s.backend},{s.ck.ATTR.get(ty, hex(ty))}|duplicate-attribute-rows', 'the token database holds more than one row for one (object, attribute type): the stored value is ambiguous', rows=n, where=where)
         mk = t.master_key(USER); mk2 = t.master_key(SO, so=True)
         if mk is None or mk != mk2: s.V(f'decoder|{s.backend}|master-key-not-recovered', 'the PIN blobs do not unwrap to one master key with the right PINs', user=bool(mk), so=bool(mk2)); return
         if t.master_key(USER + b'x') is not None: s.V(f'decoder|{s.backend}|master-key-without-pin', 'a wrong PIN unwraps the master key')
@@ -239,6 +248,27 @@ class History:
         fns = [f for f, w in ops]; ws = [w for f, w in ops]
         for i in range(steps): s.rnd.choices(fns, ws)[0]()
         s.restart('newproc'); s.check_disk('end')
+
+def w_flags(job):
+    """CKA_MODIFIABLE / CKA_COPYABLE / CKA_DESTROYABLE = false, each alone and together, on token objects of several classes: unchanged after both kinds of restart"""
+    part = Part(); d = os.path.join(job['scratch'], 'flags-%s-%s' % (job['backend'], job['cfg'])); shutil.rmtree(d, ignore_errors=True); os.makedirs(d); L = Lib(job, d, job['backend'], job['cfg'])
+    h = History(job, part, L, random.Random(job['seed']))
+    try:
+        L.start(); L.init_token(h.label); h.open()
+        for cls in ('data', 'sk-aes', 'cert-x509', 'priv-ec', 'pub-rsa', 'dom-dh'):
+            for private in (False, True):
+                for extra in ([('CKA_MODIFIABLE', False)], [('CKA_COPYABLE', False)], [('CKA_DESTROYABLE', False)], [('CKA_MODIFIABLE', False), ('CKA_COPYABLE', False), ('CKA_DESTROYABLE', False)], [('CKA_MODIFIABLE', True), ('CKA_COPYABLE', True), ('CKA_DESTROYABLE', True)]):
+                    h.create_with(cls, private, extra)
+        h.restart('newproc'); h.restart('reinit'); h.restart('newproc'); h.check_disk('end')
+        # the flags must also still be honoured by the new process (a flag that reads back but is ignored has not persisted either)
+        o = [o for o in h.M.values() if o.alive and o.exp.get('CKA_DESTROYABLE') == b'\x00'][0]; r = L.x.call('C_DestroyObject', s=h.S, o=o.h)
+        if r['rv'] == 0: h.V(f'C_CreateObject|{h.backend},CKA_DESTROYABLE|not-honoured-after-restart', 'an object created with CKA_DESTROYABLE=false can be destroyed after a restart', cls=o.cls)
+        part.case(('storage-flag', 'destroy-refused', h.backend))
+    except Died as e: part.observe('side:C17 library terminated the host', {'kind': e.kind(), 'fn': e.fn, 'where': e.where()}); part.inconc(f'executor died ({e.kind()} in {e.fn}) in the storage-flag job')
+    except Hang: part.inconc('executor hang in the storage-flag job')
+    except AssertionError as e: part.inconc(f'storage-flag job set-up failed: {e!r}')
+    finally: L.stop()
+    shutil.rmtree(d, ignore_errors=True); return part
 
 def w_history(job):
     part = Part(); d = os.path.join(job['scratch'], 'h%d' % job['seed']); shutil.rmtree(d, ignore_errors=True); os.makedirs(d); L = Lib(job, d, job['backend'], job['cfg'])
@@ -431,7 +461,7 @@ def w_fault(job):
     return part
 
 # ---------------------------------------------------------------- driver
-def dispatch(job): return {'history': w_history, 'fixture': w_fixture, 'fault-prep': w_fault_prep, 'fault': w_fault}[job['kind']](job)
+def dispatch(job): return {'flags': w_flags, 'history': w_history, 'fixture': w_fixture, 'fault-prep': w_fault_prep, 'fault': w_fault}[job['kind']](job)
 def run(ctx):
     ctx.rule = ('one evaluation = one (token object, restart) comparison of EVERY attribute against the model, one (object, decoder) comparison, one session object checked for non-survival, '
                 'one golden-fixture object / PIN, or one faulted call; distinct = (class, attribute kind, size class, back-end, restart kind) of attributes that were set explicitly '
@@ -448,11 +478,13 @@ def run(ctx):
     for cfg in cfgs:
         for fx in ('file/openssl', 'file/botan', 'db/openssl', 'db/botan'):
             jobs.append(dict(common, kind='fixture', fixture=fx, cfg=cfg, decode=(cfg == 'asan')))
+    for cfg in cfgs:
+        for b in ('file', 'db'): jobs.append(dict(common, kind='flags', backend=b, cfg=cfg, seed=ctx.seed * 100003 + 900000 + len(jobs)))
     fb = ('file', 'db'); calls = ['C_CreateObject', 'C_SetAttributeValue', 'C_DestroyObject', 'C_CopyObject']
     # db back-end: C_CopyObject is broken wholesale there (see the histories), so it has no effect a fault could lose
     for b in fb: jobs.append(dict(common, kind='fault-prep', backend=b, cfg='asan', calls=[c for c in calls if not (b == 'db' and c == 'C_CopyObject')]))
     # long jobs first
-    jobs.sort(key=lambda j: {'fault-prep': 0, 'fixture': 1, 'history': 2}[j['kind']])
+    jobs.sort(key=lambda j: {'fault-prep': 0, 'fixture': 1, 'flags': 1, 'history': 2}[j['kind']])
     for part in pmap(dispatch, jobs, ctx.nproc): ctx.merge(part)
     jobs = []
     for b in fb:
